@@ -21,6 +21,7 @@ fn main()
 		std::process::exit(2);
 	}
 	util::install_panic_hook();
+	util::start_watchdog();
 	match args[1].as_str()
 	{
 		"front" => front::stream(&args[2]),
